@@ -230,9 +230,6 @@ type window struct {
 	start      int64
 	sum        *big.Int
 	limitAtAcc *big.Int
-	// the chain was restarted from an exported genesis while this window was open (the real tally is
-	// not exported: known finding C15:usage-tally-lost-in-genesis-export)
-	crossedGenesis bool
 }
 
 var periodBlocks = map[int]int64{1: 57600, 2: 57600 * 7, 3: 57600 * 30, 4: 57600 * 365}
@@ -370,6 +367,10 @@ type histCtx struct {
 	tax      map[int]*taxCfg
 	lim      map[int]*limCfg
 	win      map[int]*window
+	// windows that were open when the chain was restarted from an exported genesis which dropped the
+	// token's usage tally (known finding C15:usage-tally-lost-in-genesis-export): only used to report
+	// that finding; the limit itself is checked on [win], which starts afresh like the real tally
+	oldWin map[int]*window
 	pend     map[uint64]*pending
 	batches  map[string][]uint64 // "tok/nonce" -> tx ids
 	supply0  []*big.Int
@@ -540,6 +541,7 @@ func (h *histCtx) doSetLimitSp(sp string, obs int, limit *big.Int, period int, e
 		// the oracle's window bookkeeping is per configuration: a configuration change starts a new
 		// observation (the stored tally is kept by the code; the model covers that part)
 		delete(h.win, tok)
+		delete(h.oldWin, tok)
 		if rec, err := e.in.SkywayKeeper.BridgeTransferLimit(h.root, sp); err != nil || rec == nil || rec.Token != sp || rec.Limit.BigInt().Cmp(limit) != 0 ||
 			int(rec.LimitPeriod) != period || !sameAddrs(rec.ExemptAddresses, accs) {
 			h.violate("C15:configured-not-stored-verbatim", fmt.Sprintf("accepted SetBridgeTransferLimitProposal for token %q limit %s: BridgeTransferLimit(%q) returns %v (err %v)", sp, limit, sp, rec, err))
@@ -650,11 +652,17 @@ func (h *histCtx) doSend(height int64, sender, tok int, amount *big.Int, mal int
 			w := h.win[tok]
 			fresh := w == nil || !w.has || height-w.start >= periodBlocks[lc.period]
 			if wsum.Cmp(lc.limit) > 0 {
-				if !fresh && w.crossedGenesis {
-					h.violate("C15:usage-tally-lost-in-genesis-export", fmt.Sprintf("accepted transfers of one limit window (restart rule) total %s > limit %s: the chain was restarted from an exported genesis inside the window and the usage tally is not part of the export", wsum, lc.limit))
-					h.run.Count("known-finding", "window total above the limit across a genesis restart")
+				h.violate("C15:window-total-exceeds-limit", fmt.Sprintf("accepted transfers in the window starting at the restart total %s > limit %s", wsum, lc.limit))
+			}
+			if ow := h.oldWin[tok]; ow != nil {
+				if height-ow.start >= periodBlocks[lc.period] {
+					delete(h.oldWin, tok)
 				} else {
-					h.violate("C15:window-total-exceeds-limit", fmt.Sprintf("accepted transfers in the window starting at the restart total %s > limit %s", wsum, lc.limit))
+					ow.sum = new(big.Int).Add(ow.sum, amount)
+					if ow.sum.Cmp(lc.limit) > 0 {
+						h.violate("C15:usage-tally-lost-in-genesis-export", fmt.Sprintf("accepted transfers of one limit window (restart rule) total %s > limit %s: the chain was restarted from an exported genesis inside the window and the usage tally is not part of the export", ow.sum, lc.limit))
+						h.run.Count("known-finding", "window total above the limit across a genesis restart")
+					}
 				}
 			}
 			if fresh {
@@ -982,11 +990,16 @@ func (h *histCtx) doGenesis() {
 		}
 		if before.usage[t] != nil && after.usage[t] == nil {
 			lost = true
-		}
-	}
-	for _, w := range h.win {
-		if w != nil && w.has {
-			w.crossedGenesis = true
+			// the real tally starts afresh: so does the window the limit is checked on; the open window
+			// is kept aside to report the known finding
+			if w := h.win[t]; w != nil && w.has {
+				if h.oldWin[t] == nil {
+					h.oldWin[t] = w
+				}
+				delete(h.win, t)
+			}
+		} else if !usageEq(before.usage[t], after.usage[t]) {
+			h.violate("C15:genesis-changed-usage-tally", "export+import changed a usage tally")
 		}
 	}
 	h.run.Count("op", "genesis")
@@ -1026,7 +1039,7 @@ func (e *env) workingSet(r *rand.Rand, focus int, hostile bool) []int {
 func (e *env) history(run *emit.Run, r *rand.Rand, hostile bool, ws []int, minBal int64, script func(h *histCtx)) {
 	root, _ := e.base.CacheContext() // never written back: every history starts from the same base state
 	h := &histCtx{e: e, run: run, r: r, root: root, tax: map[int]*taxCfg{}, lim: map[int]*limCfg{}, win: map[int]*window{},
-		pend: map[uint64]*pending{}, batches: map[string][]uint64{}, replay: map[string]any{}}
+		pend: map[uint64]*pending{}, batches: map[string][]uint64{}, replay: map[string]any{}, oldWin: map[int]*window{}}
 	h.height = 1 + r.Int63n(2_000_000)
 	h.root = h.root.WithBlockHeight(h.height)
 
@@ -1287,8 +1300,25 @@ func (h *histCtx) pickAmount(sender, tok int, hostile bool) *big.Int {
 	}
 	var a *big.Int
 	switch k {
-	case 0, 1:
+	case 0:
 		a = big.NewInt(int64(1 + r.Intn(200)))
+	case 1:
+		a = big.NewInt(int64(1 + r.Intn(200)))
+		// around the smallest amounts at which the tax becomes k: ceil(k/rate) - 1, +0, +1 (tiny rates such
+		// as 1e-18 tax nothing below 1e18)
+		if tc := h.tax[tok]; tc != nil && !tc.exempt[sender] && tc.rate.Sign() > 0 {
+			kk := big.NewInt(int64(1 + r.Intn(3)))
+			q := new(big.Rat).Quo(new(big.Rat).SetInt(kk), tc.rate)
+			c := new(big.Int).Quo(q.Num(), q.Denom())
+			if new(big.Int).Mul(c, q.Denom()).Cmp(q.Num()) != 0 {
+				c.Add(c, big.NewInt(1))
+			}
+			c.Add(c, big.NewInt(int64(r.Intn(3)-1)))
+			if c.Sign() > 0 && c.Cmp(bal) <= 0 {
+				a = c
+				h.run.Count("send-amount-aim", "tax threshold ceil(k/rate)+-1")
+			}
+		}
 	case 2:
 		a = new(big.Int).Set(bal)
 	case 3:
@@ -1614,6 +1644,18 @@ func corpus() []corpusCase {
 			h.doSetLimitSp(strings.ToLower(factoryUpper), 4, big.NewInt(50), 1, nil) // = the denom of token 5
 			h.doSend(h.height, 0, 4, big.NewInt(100), 0, true)                       // WETH: unlimited
 			h.doSend(h.height, 0, 5, big.NewInt(51), 0, true)                        // weth: rejected
+		}},
+		// a tiny rate is a rate: 1e-18 taxes nothing below 1e18 and exactly 1 from there on
+		{[]int{6, 1, 2}, 3_000_000_000_000_000_000, func(h *histCtx) {
+			h.doSetTax(6, "1e-18", nil)
+			e18 := new(big.Int).Exp(big.NewInt(10), big.NewInt(18), nil)
+			h.doSend(h.height, 0, 6, new(big.Int).Sub(e18, big.NewInt(1)), 0, true)
+			h.doSend(h.height, 1, 6, e18, 0, true)
+			h.doSend(h.height, 2, 6, new(big.Int).Add(e18, big.NewInt(1)), 0, true)
+			h.doSetTax(6, "0.000000001", nil)
+			h.doSend(h.height, 3, 6, big.NewInt(999_999_999), 0, true)
+			h.doSend(h.height, 3, 6, big.NewInt(1_000_000_000), 0, true)
+			h.doCancel(1, 2)
 		}},
 		// the witness of Properties/C15.v window_total_across_genesis_refuted on the real keeper: the usage
 		// tally is not exported, the allowance is available again after a restart from genesis
